@@ -40,8 +40,9 @@ Inductive lres := LOk (code : list instr) (start : Z) | LErr.
 
 Record lstate94 := mkLS { ls_code : list instr; ls_start : Z }.
 
-(* one significant line: Some (inl st') continue, Some (inr tt) stop (end), None error *)
-Definition line94 (m : N) (st : lstate94) (raw : text) : option (lstate94 + unit) :=
+(* one significant line: Some (inl st') continue, Some (inr _) stop (end; with the entry point an
+   "end n" line carries), None error *)
+Definition line94 (m : N) (st : lstate94) (raw : text) : option (lstate94 + option Z) :=
   match raw with
   | [] => Some (inl st)
   | 59 :: _ => Some (inl st)
@@ -71,7 +72,7 @@ Definition line94 (m : N) (st : lstate94) (raw : text) : option (lstate94 + unit
       end
     | f0 :: rest =>
       match rest with
-      | [] => if text_eqb f0 (s2t "end") then Some (inr tt)
+      | [] => if text_eqb f0 (s2t "end") then Some (inr None)
               else if text_eqb f0 (s2t "org") then None else None
       | [arg] =>
         if text_eqb f0 (s2t "org") then
@@ -101,7 +102,7 @@ Definition parse_load_file_94 (m : N) (s : text) : lres :=
                else LOk (ls_code st) (ls_start st)
   end.
 
-Definition line88 (m : N) (st : lstate94) (raw : text) : option (lstate94 + unit) :=
+Definition line88 (m : N) (st : lstate94) (raw : text) : option (lstate94 + option Z) :=
   match raw with
   | [] => Some (inl st)
   | 59 :: _ => Some (inl st)
@@ -126,13 +127,13 @@ Definition line88 (m : N) (st : lstate94) (raw : text) : option (lstate94 + unit
       let is_org := text_eqb f0 (s2t "org") in
       if negb (is_end || is_org) then None
       else match rest with
-           | [] => if is_org then None else Some (inr tt)
+           | [] => if is_org then None else Some (inr None)
            | [arg] =>
              match parse_int 32 arg with
              | None => None
              | Some v =>
                if ((v <? 0) || (negb is_org && (Z.of_nat (length (ls_code st)) <? v)))%Z%bool then None
-               else if is_end then Some (inr tt) (* Start is set, then break *)
+               else if is_end then Some (inr (Some v)) (* Start is set, then break *)
                else Some (inl (mkLS (ls_code st) v))
              end
            | _ => None
@@ -140,23 +141,14 @@ Definition line88 (m : N) (st : lstate94) (raw : text) : option (lstate94 + unit
     end
   end.
 
-(* "end n" sets Start before breaking: handle it in the loop *)
 Fixpoint load88_lines (m : N) (st : lstate94) (lines : list text) : option lstate94 :=
   match lines with
   | [] => Some st
   | l :: t =>
     match line88 m st l with
     | None => None
-    | Some (inr _) =>
-      (* recover the argument of "end n", if any *)
-      let fs := fields (commas_to_spaces (before_semicolon (lower l))) in
-      match fs with
-      | [_; arg] => match parse_int 32 arg with
-                    | Some v => Some (mkLS (ls_code st) v)
-                    | None => Some st
-                    end
-      | _ => Some st
-      end
+    | Some (inr None) => Some st
+    | Some (inr (Some v)) => Some (mkLS (ls_code st) v)
     | Some (inl st') => load88_lines m st' t
     end
   end.
